@@ -61,7 +61,8 @@ theorem sameProps_of_lookup (want got : Props) (h : ∀ k, lookupKey k got = (lo
 
 /-! ## the theorems -/
 
-/-- **C01 (round trip, validation off on both sides)**: for every target store holding nothing of a geff
+/-- **C01 (round trip; `structure_validation=False` on both sides — the calls to `validate_structure` are the
+only thing left out, see `C01_roundtrip_validated_partial`)**: for every target store holding nothing of a geff
 yet (`Fresh`: foreign attributes and siblings allowed), every well-formed graph — any number of
 nodes and edges including none, any integer id dtype and id values, node/edge properties with
 pairwise distinct valid names, of any supported dtype, any rank, with or without a boolean missing
@@ -69,7 +70,7 @@ mask, including variable-length properties with elements of one dtype and rank (
 zero-sized ones included) — and every caller metadata whose axes are consistent with the graph:
 `write_arrays` succeeds and `read_to_memory` on the result succeeds and returns the same graph.
 `c` is any lawful var-length codec (C11); no bound on anything. -/
-theorem C01_roundtrip_core (c : VlenCodec) (hc : c.Lawful) (s0 : St) (g : InMem) (md : CallerMeta)
+theorem C01_roundtrip (c : VlenCodec) (hc : c.Lawful) (s0 : St) (g : InMem) (md : CallerMeta)
     (n e : Nat) (nps eps : Props)
     (hfresh : Fresh s0) (hwf : WFGeff g n e nps eps) (hax : AxesOK md n nps) :
     ∃ s', writeCore c s0 g md = .ok s' ∧
@@ -84,18 +85,22 @@ theorem C01_roundtrip_core (c : VlenCodec) (hc : c.Lawful) (s0 : St) (g : InMem)
     (expectedNodeProps md n nps) eps md hW hnd hw hwf.edgeNames (fun kp hm => (hwf.edgeOK kp hm).1)
   exact ⟨s', hwrite, hW, r, hread, ⟨h1, h2, sameProps_of_lookup _ _ h4, sameProps_of_lookup _ _ h5⟩⟩
 
-/-- **C01 (round trip)** with structural validation on both sides (the defaults of `write_arrays` and
-`read_to_memory`).  `validate` is the structural validator — C04's model; the one fact used about it
-is the named hypothesis `hval`: it accepts the store the writer produces for this well-formed graph
-(that is what C04's `validate = ok ↔ conformant` together with `GeffProps.C02.C02_writer_conforms`
-provides; the harness checks it against the real `validate_structure` on every case). -/
-theorem C01_roundtrip (c : VlenCodec) (hc : c.Lawful) (validate : St → Outcome Unit)
+/-- **C01 (round trip) with the default `structure_validation=True` on both sides — PARTIAL.**
+Full statement: as `C01_roundtrip`, with `writeArrays`/`readToMemory` calling the model of
+`validate_structure` (C04: `Geff.Structure.validateStructure`).  Proved here: the same with the
+validator as a parameter and the named hypothesis `hval` — it accepts the store the writer produces
+for this well-formed graph.  Missing: discharging `hval` from C04's `C04_sound_complete`
+(`validate = ok ↔ Conformant`); C04's model lives on its own nested-tree store type, and the
+abstraction from the flat `St` used here to it, with the proof that the written store is `Conformant`
+there, has not been done.  The harness closes the gap empirically: the real `validate_structure` runs
+inside `write_arrays`/`read_to_memory` on every generated case and must accept. -/
+theorem C01_roundtrip_validated_partial (c : VlenCodec) (hc : c.Lawful) (validate : St → Outcome Unit)
     (s0 : St) (g : InMem) (md : CallerMeta) (n e : Nat) (nps eps : Props)
     (hfresh : Fresh s0) (hwf : WFGeff g n e nps eps) (hax : AxesOK md n nps)
     (hval : ∀ s', writeCore c s0 g md = .ok s' → validate s' = .ok ()) :
     ∃ s', writeArrays c validate s0 g md = .ok s' ∧
       ∃ r, readToMemory c validate s' = .ok r ∧ Spec g.nodeIds g.edgeIds (expectedNodeProps md n nps) eps r := by
-  obtain ⟨s', hwrite, _, r, hread, hspec⟩ := C01_roundtrip_core c hc s0 g md n e nps eps hfresh hwf hax
+  obtain ⟨s', hwrite, _, r, hread, hspec⟩ := C01_roundtrip c hc s0 g md n e nps eps hfresh hwf hax
   refine ⟨s', ?_, r, ?_, hspec⟩
   · unfold writeArrays
     simp only [hwrite, hval s' hwrite, bind, Except.bind, pure, Except.pure]
@@ -104,12 +109,12 @@ theorem C01_roundtrip (c : VlenCodec) (hc : c.Lawful) (validate : St → Outcome
 
 /-- the same for the codec the check runs (the model of `geff.core_io._serialization`, C11):
 its round-trip law is discharged by `GeffProofs.Vlen` (`vlenCodec_lawful`) -/
-theorem C01_roundtrip_geff (validate : St → Outcome Unit) (s0 : St) (g : InMem) (md : CallerMeta)
+theorem C01_roundtrip_geff_validated_partial (validate : St → Outcome Unit) (s0 : St) (g : InMem) (md : CallerMeta)
     (n e : Nat) (nps eps : Props) (hfresh : Fresh s0) (hwf : WFGeff g n e nps eps) (hax : AxesOK md n nps)
     (hval : ∀ s', writeCore vlenCodec s0 g md = .ok s' → validate s' = .ok ()) :
     ∃ s', writeArrays vlenCodec validate s0 g md = .ok s' ∧
       ∃ r, readToMemory vlenCodec validate s' = .ok r ∧ Spec g.nodeIds g.edgeIds (expectedNodeProps md n nps) eps r :=
-  C01_roundtrip vlenCodec vlenCodec_lawful validate s0 g md n e nps eps hfresh hwf hax hval
+  C01_roundtrip_validated_partial vlenCodec vlenCodec_lawful validate s0 g md n e nps eps hfresh hwf hax hval
 
 /-- empty graphs are covered: with no axes in the metadata exactly the given properties come back -/
 theorem C01_expected_no_axes (md : CallerMeta) (n : Nat) (nps : Props) (h : md.axes = none) :
@@ -126,7 +131,7 @@ theorem C01_foreign_untouched (c : VlenCodec) (hc : c.Lawful) (s0 : St) (g : InM
     (n e : Nat) (nps eps : Props) (hfresh : Fresh s0) (hwf : WFGeff g n e nps eps) (hax : AxesOK md n nps) :
     ∃ s', writeCore c s0 g md = .ok s' ∧
       ∀ k suf, k ≠ Gen.Paths.NODES → k ≠ Gen.Paths.EDGES → get s' (k :: suf) = get s0 (k :: suf) := by
-  obtain ⟨s', hwrite, hW, _⟩ := C01_roundtrip_core c hc s0 g md n e nps eps hfresh hwf hax
+  obtain ⟨s', hwrite, hW, _⟩ := C01_roundtrip c hc s0 g md n e nps eps hfresh hwf hax
   exact ⟨s', hwrite, hW.foreign⟩
 
 /-! ## the error branch -/
